@@ -18,7 +18,21 @@
 #include "tickit-mockterm.h"
 #include <sanitizer/asan_interface.h>
 
+#include <fcntl.h>
+#include <sys/time.h>
+#include <sys/select.h>
+
 int __lsan_do_recoverable_leak_check(void);
+
+/* the library's clock (engines.d/C08.json links with -Wl,--wrap=gettimeofday): it stands still unless a `tick`
+ * line advances it, so that the inter-byte timeout of the terminal's input is reached without waiting */
+static long fake_ms;
+int __wrap_gettimeofday(struct timeval *tv, void *tz)
+{
+  (void)tz;
+  tv->tv_sec = 1000000 + fake_ms / 1000; tv->tv_usec = (fake_ms % 1000) * 1000;
+  return 0;
+}
 
 #define MAXO 48
 #define MAXB 64
@@ -32,6 +46,12 @@ static int Wparent[MAXO]; static int Wdetached[MAXO]; static int Wconsumed[MAXO]
 static TickitPen *P[MAXO]; static int Pref[MAXO]; static int nP;
 static TickitString *S[MAXO]; static int Sref[MAXO]; static int nS;
 static TickitRenderBuffer *B[MAXO]; static int Bref[MAXO]; static int nB;
+
+static int in_fd[2] = { -1, -1 };   /* `newin`: the terminal reads from in_fd[0] */
+/* `newtop`: the toplevel instance.  It owns the terminal and the root window; the application takes its own
+ * reference to each handle it keeps (tickit_window_ref(tickit_get_rootwin(t)), tickit_term_ref(tickit_get_term(t))) */
+static Tickit *TK; static int tk_refs;
+static int heldi(void);
 
 struct act { char kind; int arg; };
 struct beh { int used; int w; int ev; int ret; int id; int nacts; struct act acts[MAXA]; };
@@ -113,6 +133,7 @@ static void dump(void)
   for(int i = 0; i < nB; i++) obs("%d", alive(B[i]));
   if(!nB) obs("-");
   obs(" | T %d", alive(tt));
+  if(TK) obs(" | I %d", alive(TK));
 }
 
 /* ---- the operations a handler may also perform ------------------------------------------------ */
@@ -181,6 +202,76 @@ static int on_pen_event(TickitPen *pen, TickitEventFlags flags, void *info, void
   return 0;
 }
 
+/* ---- handlers bound on the terminal itself, and its input ------------------------------------- */
+
+struct tbeh { int used; int ev; int ret; int id; int nacts; struct act acts[MAXA]; };
+static struct tbeh TBEH[MAXB]; static int nTBEH;
+
+static int on_term_event(TickitTerm *term, TickitEventFlags flags, void *info, void *user)
+{
+  (void)term;
+  if(!(flags & TICKIT_EV_FIRE)) return 0;
+  struct tbeh *b = user;
+  int k = (int)(b - TBEH);
+  if(b->ev == 0) obs("T%dk ", k);
+  else { TickitMouseEventInfo *m = info; obs("T%dm%x@%d,%d ", k, (unsigned)m->type, m->line, m->col); }
+  int ret = b->ret, n = b->nacts;
+  struct act acts[MAXA];
+  memcpy(acts, b->acts, sizeof acts);
+  for(int i = 0; i < n; i++) {
+    if(acts[i].kind == 't') { if(heldt()) { tt_refs--; tickit_term_unref(tt); } }
+    else if(acts[i].kind == 'T') { if(heldt()) { tt_refs++; tickit_term_ref(tt); } }
+    else simple_op(acts[i].kind, acts[i].arg, NULL);
+  }
+  return ret;
+}
+
+static int heldi(void) { return TK && tk_refs > 0 && alive(TK); }
+
+/* watches of the toplevel instance (tickit_watch_later / tickit_watch_timer_after_msec): behaviour tables again */
+struct wbeh { int used; int timer; int pending; void *watch; int nacts; struct act acts[MAXA]; };
+static struct wbeh WBEH[MAXB]; static int nWBEH;
+
+static int on_watch(Tickit *t, TickitEventFlags flags, void *info, void *user)
+{
+  (void)t; (void)info;
+  if(!(flags & TICKIT_EV_FIRE)) return 0;
+  struct wbeh *b = user;
+  b->pending = 0;
+  obs("%c%d ", b->timer ? 'M' : 'L', (int)(b - WBEH));
+  int n = b->nacts;
+  struct act acts[MAXA];
+  memcpy(acts, b->acts, sizeof acts);
+  for(int i = 0; i < n; i++) {
+    if(acts[i].kind == 't') { if(heldt()) { tt_refs--; tickit_term_unref(tt); } }
+    else if(acts[i].kind == 'T') { if(heldt()) { tt_refs++; tickit_term_ref(tt); } }
+    else simple_op(acts[i].kind, acts[i].arg, NULL);
+  }
+  return 0;
+}
+
+/* input tokens to bytes (the decoding is fixed in Model/LifeTop.lean `Tok`): a = 'a', A = ESC b, U = ESC [ A,
+ * E = ESC, P/D/R<line>,<col> = X10 mouse report ESC [ M b x y (button 1 press / drag, release) */
+static size_t tokens_to_bytes(int argc, char **argv, int from, char *out, size_t cap)
+{
+  size_t n = 0;
+  for(int k = from; k < argc && n + 8 < cap; k++) {
+    const char *t = argv[k];
+    int line = 0, col = 0;
+    if(strcmp(t, "a") == 0) out[n++] = 'a';
+    else if(strcmp(t, "A") == 0) { out[n++] = 0x1b; out[n++] = 'b'; }
+    else if(strcmp(t, "U") == 0) { out[n++] = 0x1b; out[n++] = '['; out[n++] = 'A'; }
+    else if(strcmp(t, "E") == 0) out[n++] = 0x1b;
+    else if((t[0] == 'P' || t[0] == 'D' || t[0] == 'R') && sscanf(t + 1, "%d,%d", &line, &col) == 2) {
+      out[n++] = 0x1b; out[n++] = '['; out[n++] = 'M';
+      out[n++] = t[0] == 'P' ? 32 : t[0] == 'D' ? 64 : 35;
+      out[n++] = (char)(33 + col); out[n++] = (char)(33 + line);
+    }
+    else return (size_t)-1;
+  }
+  return n;
+}
+
 /* ---- engine ---------------------------------------------------------------------------------- */
 
 static void engine_begin(void)
@@ -192,6 +283,10 @@ static void engine_begin(void)
   memset(Wref, 0, sizeof Wref); memset(Pref, 0, sizeof Pref); memset(Sref, 0, sizeof Sref); memset(Bref, 0, sizeof Bref);
   memset(BEH, 0, sizeof BEH);
   memset(PBEH, 0, sizeof PBEH); nPBEH = 0;
+  memset(TBEH, 0, sizeof TBEH); nTBEH = 0;
+  memset(WBEH, 0, sizeof WBEH); nWBEH = 0;
+  in_fd[0] = in_fd[1] = -1; fake_ms = 0;
+  TK = NULL; tk_refs = 0;
 }
 
 static void engine_end(void) { }
@@ -209,6 +304,7 @@ static void drop_all(void)
   for(int i = nB - 1; i >= 0; i--)
     while(heldb(i)) { Bref[i]--; tickit_renderbuffer_unref(B[i]); }
   while(heldt()) { tt_refs--; tickit_term_unref(tt); }
+  while(heldi()) { tk_refs--; tickit_unref(TK); }
 }
 
 static int __attribute__((noinline)) leak_check(void)
@@ -218,6 +314,9 @@ static int __attribute__((noinline)) leak_check(void)
   memset(W, 0, sizeof W); memset(P, 0, sizeof P); memset(S, 0, sizeof S); memset(B, 0, sizeof B);
   memset(BEH, 0, sizeof BEH);
   memset(PBEH, 0, sizeof PBEH);
+  memset(TBEH, 0, sizeof TBEH);
+  memset(WBEH, 0, sizeof WBEH);
+  TK = NULL;
   return __lsan_do_recoverable_leak_check() ? 1 : 0;
 }
 
@@ -254,11 +353,33 @@ static void engine_op(int argc, char **argv)
 {
   const char *op = argv[0];
 #define A(k) (argc > (k) ? atoi(argv[k]) : 0)
-  if(strcmp(op, "new") == 0 || strcmp(op, "newmock") == 0) {
+  if(strcmp(op, "newtop") == 0) {
+    int lines = argc > 1 ? A(1) : 10, cols = argc > 2 ? A(2) : 20;
+    if(pipe(in_fd) != 0) { obs("bad-op"); return; }
+    fcntl(in_fd[0], F_SETFL, O_NONBLOCK);
+    tt = tickit_term_build(&(struct TickitTermBuilder){ .termtype = "xterm", .open = TICKIT_OPEN_FDS,
+        .input_fd = in_fd[0], .output_fd = -1, .output_func = outf });
+    tickit_term_set_size(tt, lines, cols);
+    TK = tickit_build(&(struct TickitBuilder){ .tt = tt });      /* takes over the reference to tt */
+    if(!TK) { obs("bad-op"); return; }
+    tk_refs = 1;
+    tt = tickit_term_ref(tickit_get_term(TK)); tt_refs = 1;
+    W[0] = tickit_window_ref(tickit_get_rootwin(TK)); Wref[0] = 1; Wparent[0] = -1; nW = 1;
+    obs("ok"); dump();
+    return;
+  }
+  if(strcmp(op, "new") == 0 || strcmp(op, "newmock") == 0 || strcmp(op, "newin") == 0) {
     int lines = argc > 1 ? A(1) : 10, cols = argc > 2 ? A(2) : 20;
     if(strcmp(op, "newmock") == 0) {
       tt = (TickitTerm *)tickit_mockterm_new(lines, cols);
       is_mock = 1;
+    }
+    else if(strcmp(op, "newin") == 0) {
+      if(pipe(in_fd) != 0) { obs("bad-op"); return; }
+      fcntl(in_fd[0], F_SETFL, O_NONBLOCK);
+      tt = tickit_term_build(&(struct TickitTermBuilder){ .termtype = "xterm", .open = TICKIT_OPEN_FDS,
+          .input_fd = in_fd[0], .output_fd = -1, .output_func = outf });
+      tickit_term_set_size(tt, lines, cols);
     }
     else {
       tt = tickit_term_build(&(struct TickitTermBuilder){ .termtype = "xterm", .output_func = outf });
@@ -424,6 +545,88 @@ static void engine_op(int argc, char **argv)
     if(!heldt()) { obs("skip"); dump(); return; }
     tt_refs--; tickit_term_unref(tt); obs("ok"); dump(); return;
   }
+  if(strcmp(op, "tbind") == 0 && argc >= 3) {
+    if(!heldt() || nTBEH >= MAXB) { obs("skip"); dump(); return; }
+    struct tbeh *b = &TBEH[nTBEH++];
+    b->used = 1; b->ev = strcmp(argv[1], "mouse") == 0; b->ret = A(2); b->nacts = 0;
+    for(int k = 3; k < argc && b->nacts < MAXA; k++) {
+      b->acts[b->nacts].kind = argv[k][0];
+      b->acts[b->nacts].arg = atoi(argv[k] + 1);
+      b->nacts++;
+    }
+    b->id = tickit_term_bind_event(tt, b->ev ? TICKIT_TERM_ON_MOUSE : TICKIT_TERM_ON_KEY, 0, on_term_event, b);
+    obs("id=%d", b->id); dump(); return;
+  }
+  if(strcmp(op, "tunbind") == 0 && argc == 2) {
+    /* the application unbinds what it has bound */
+    int found = -1;
+    for(int k = 0; k < nTBEH; k++) if(TBEH[k].used && TBEH[k].id == A(1)) found = k;
+    if(!heldt() || found < 0) { obs("skip"); dump(); return; }
+    TBEH[found].used = 0;
+    tickit_term_unbind_event_id(tt, A(1));
+    obs("ok"); dump(); return;
+  }
+  if(strcmp(op, "tpush") == 0 || strcmp(op, "tread") == 0 || strcmp(op, "twait") == 0 || strcmp(op, "twaitv") == 0) {
+    char bytes[512];
+    size_t n = tokens_to_bytes(argc, argv, 1, bytes, sizeof bytes);
+    if(n == (size_t)-1) { obs("bad-op"); return; }
+    if(!heldt() || (op[1] != 'p' && in_fd[0] < 0)) { obs("skip"); dump(); return; }
+    if(op[1] == 'p') tickit_term_input_push_bytes(tt, bytes, n);
+    else {
+      if(n && write(in_fd[1], bytes, n) != (ssize_t)n) { obs("bad-op"); return; }
+      if(op[1] == 'r') tickit_term_input_readable(tt);
+      else if(op[5] == 'v') tickit_term_input_wait_tv(tt, &(struct timeval){ 0, 0 });
+      else tickit_term_input_wait_msec(tt, 0);
+    }
+    obs("ok"); dump(); return;
+  }
+  if(strcmp(op, "tcheck") == 0) {
+    if(!heldt()) { obs("skip"); dump(); return; }
+    int r = tickit_term_input_check_timeout_msec(tt);
+    obs("ret=%d", r); dump(); return;
+  }
+  if(strcmp(op, "tick") == 0 && argc == 2) { fake_ms += A(1); obs("ok"); dump(); return; }
+  /* ---- the toplevel instance */
+  if(strcmp(op, "iref") == 0) {
+    if(!heldi()) { obs("skip"); dump(); return; }
+    tk_refs++; tickit_ref(TK); obs("ok"); dump(); return;
+  }
+  if(strcmp(op, "iunref") == 0) {
+    if(!heldi()) { obs("skip"); dump(); return; }
+    tk_refs--; tickit_unref(TK); obs("ok"); dump(); return;
+  }
+  if((strcmp(op, "ilater") == 0 && argc >= 1) || (strcmp(op, "itimer") == 0 && argc >= 2)) {
+    if(!heldi() || nWBEH >= MAXB) { obs("skip"); dump(); return; }
+    struct wbeh *b = &WBEH[nWBEH++];
+    b->used = 1; b->timer = op[1] == 't'; b->pending = 1; b->nacts = 0;
+    for(int k = b->timer ? 2 : 1; k < argc && b->nacts < MAXA; k++) {
+      b->acts[b->nacts].kind = argv[k][0];
+      b->acts[b->nacts].arg = atoi(argv[k] + 1);
+      b->nacts++;
+    }
+    if(b->timer) b->watch = tickit_watch_timer_after_msec(TK, A(1), 0, on_watch, b);
+    else b->watch = tickit_watch_later(TK, 0, on_watch, b);
+    obs("ok"); dump(); return;
+  }
+  if(strcmp(op, "icancel") == 0 && argc == 2) {
+    int k = A(1);
+    if(!heldi() || k < 0 || k >= nWBEH || !WBEH[k].pending) { obs("skip"); dump(); return; }
+    WBEH[k].pending = 0;
+    tickit_watch_cancel(TK, WBEH[k].watch);
+    obs("ok"); dump(); return;
+  }
+  if(strcmp(op, "itick") == 0) {
+    char bytes[512];
+    size_t n = tokens_to_bytes(argc, argv, 1, bytes, sizeof bytes);
+    if(n == (size_t)-1) { obs("bad-op"); return; }
+    if(!heldi()) { obs("skip"); dump(); return; }
+    if(n && write(in_fd[1], bytes, n) != (ssize_t)n) { obs("bad-op"); return; }
+    /* what is queued for the windows is carried out first, so that the order in which the instance's deferred
+     * calls run does not show in the window tree (Model/LifeTop.lean) */
+    tickit_window_flush(tickit_get_rootwin(TK));
+    tickit_tick(TK, TICKIT_RUN_NOHANG | TICKIT_RUN_NOSETUP);
+    obs("ok"); dump(); return;
+  }
   /* ---- strings */
   if(strcmp(op, "str") == 0 && argc == 2) {
     unsigned char *bytes; long n = hex_decode(argv[1], &bytes);
@@ -469,6 +672,17 @@ static void engine_op(int argc, char **argv)
       free(bytes);
       obs("ret=%d", r);
     }
+    else if((strcmp(op, "btextf") == 0 || strcmp(op, "btextc") == 0) && argc == 5) {
+      /* the same text through the other entry points of put_text: textf_at (put_vtextf, both the 64-byte stack
+       * buffer and rb->tmp) and goto + textn (virtual cursor) */
+      unsigned char *bytes; long n = hex_decode(argv[4], &bytes);
+      if(n < 0) { obs("bad-op"); return; }
+      int r;
+      if(op[5] == 'f') r = tickit_renderbuffer_textf_at(rb, A(2), A(3), "%s", (char *)bytes);
+      else { tickit_renderbuffer_goto(rb, A(2), A(3)); r = tickit_renderbuffer_textn(rb, (char *)bytes, n); }
+      free(bytes);
+      obs("ret=%d", r);
+    }
     else if(strcmp(op, "berase") == 0 && argc == 5) { tickit_renderbuffer_erase_at(rb, A(2), A(3), A(4)); obs("ok"); }
     else if(strcmp(op, "bskip") == 0 && argc == 5) { tickit_renderbuffer_skip_at(rb, A(2), A(3), A(4)); obs("ok"); }
     else if(strcmp(op, "bchar") == 0 && argc == 5) { tickit_renderbuffer_char_at(rb, A(2), A(3), A(4)); obs("ok"); }
@@ -495,6 +709,19 @@ static void engine_op(int argc, char **argv)
     else if(strcmp(op, "bspan") == 0 && argc == 5) copyout_text(1, i, A(2), A(3), atol(argv[4]));
     else { obs("bad-op"); return; }
     dump(); return;
+  }
+  if(strcmp(op, "mprint") == 0 && argc == 4) {
+    /* tickit_term_goto + tickit_term_printn on the mock terminal: cells of several bytes for mdisp to walk.
+     * mtd_print does not return on a text the width counter rejects: such a line is skipped */
+    if(!is_mock || !heldt()) { obs("skip"); dump(); return; }
+    unsigned char *bytes; long n = hex_decode(argv[3], &bytes);
+    if(n < 0) { obs("bad-op"); return; }
+    TickitStringPos endpos;
+    if(tickit_utf8_ncount((char *)bytes, n, &endpos, NULL) != (size_t)n) { free(bytes); obs("skip"); dump(); return; }
+    tickit_term_goto(tt, A(1), A(2));
+    tickit_term_printn(tt, (char *)bytes, n);
+    free(bytes);
+    obs("ok"); dump(); return;
   }
   if(strcmp(op, "mdisp") == 0 && argc == 5) {
     /* tickit_mockterm_get_display_text(buffer of exactly LEN bytes, LEN, line, col, width) */
